@@ -649,10 +649,32 @@ def run_race(world, policy, prog, S):
             if r:
                 acq.append(self.sched.me())
             return r
-    old_lock, old_tab = daemon.create_single_instance_lock, daemon._pyroInstances
+    from Pyro5 import server as _server
+    POINTS = ["get", "__getitem__", "__setitem__", "__contains__", "setdefault", "pop"]
+    missing = object()
+    saved = {"create_single_instance_lock": getattr(daemon, "create_single_instance_lock", missing)}
     daemon.create_single_instance_lock = LogLock(sc, "create_single_instance_lock")
-    daemon._pyroInstances = S.instrument(sc, {}, "_pyroInstances",
-                                         ["get", "__getitem__", "__setitem__", "__contains__", "setdefault", "pop"])
+    # every plain dict the daemon object holds becomes a dict whose accesses are yield points (on today's code only
+    # `_pyroInstances` is touched by `_getInstance`); locks that the daemon code creates while the race runs are scheduler locks
+    for name, val in list(vars(daemon).items()):
+        if type(val) is dict:
+            saved[name] = val
+            setattr(daemon, name, S.instrument(sc, dict(val) if name != "_pyroInstances" else {}, name, POINTS))
+    real_threading = _server.threading
+    counter = [0]
+
+    class ThreadingShim:
+        def __getattr__(self, name):
+            return getattr(real_threading, name)
+
+        def Lock(self):
+            counter[0] += 1
+            return S.ILock(sc, "lock%d" % counter[0])
+
+        def RLock(self):
+            counter[0] += 1
+            return S.ILock(sc, "rlock%d" % counter[0], reentrant=True)
+    _server.threading = ThreadingShim()
     world.sched = sc
     results = [[None] * len(p) for p in prog["threads"]]
     try:
@@ -681,7 +703,12 @@ def run_race(world, policy, prog, S):
         return sc, (outcome, [list(r) for r in results], list(acq), {k: sorted(v) for k, v in per_class.items()}, objs)
     finally:
         world.sched = None
-        daemon.create_single_instance_lock, daemon._pyroInstances = old_lock, old_tab
+        _server.threading = real_threading
+        for name, val in saved.items():
+            if val is missing:
+                delattr(daemon, name)
+            else:
+                setattr(daemon, name, val)
 
 
 def judge_race(prog, out):
